@@ -63,9 +63,13 @@ CLAIMS = {
              "each of the 30 arms of Miniscript::lift is extracted symbolically (children as opaque lifted policies in pop "
              "order) and compared with the oracle up to commutativity; lift_check failure aborts the fold; tr / taptree / "
              "sh / wsh / pkh / wpkh / bare lifts and Concrete::lift are extracted the same way; normalized(), applied last "
-             "by every lift, keeps the truth table on a bounded family of ~2700 policies.",
-        note="Trusted: spec/semantics.py; model of generic tree iterators; rustc THIR. Semantic equivalence over all "
-             "worlds is not decided here.",
+             "by every lift, keeps the truth table on a bounded family of ~2700 policies; and on ~60 whole scripts (thorough: "
+             "~150) the policy obtained by evaluating the library's parser and lift is true for a set of owned keys, "
+             "preimages, nLockTime and nSequence exactly when a canonical witness from those assets makes the "
+             "specification's script succeed in the reference execution (every key subset x preimage subset x lock "
+             "threshold).",
+        note="Trusted: spec/semantics.py, spec/msexec.py (reference execution, canonical witnesses), spec/policy_sem.py; "
+             "model of generic tree iterators; rustc THIR. Bounded family.",
         tech=STATIC + "symbolic per-variant extraction of the lift fold from THIR compared with a specification table",
         engine="symx"),
     "C09": dict(
